@@ -72,6 +72,7 @@ STRONGER_THAN_PROPERTY = {
     "cell_to_children.value": "it fixes the ORDER in which the children of one cell are listed; C07 speaks about which cells they are",
     "get_res0_cells.value": "it fixes the ORDER of the twelve base cells; C07 speaks about which cells they are",
     "uncompact.value": "it fixes the order INSIDE the block of one input cell; C09 fixes the blocks and their order only",
+    "get_num_cells.negative": "it fixes the count reported for negative resolutions (0); C04 speaks about resolutions 0..29",
 }
 
 # functions whose whole contract (and hence every proof step inside them) is written over that stronger statement
@@ -120,9 +121,11 @@ PROPS = {
             {"op": "hex", "budget": 3000, "what": "hexadecimal form (NOT under contract): u64_to_hex(x) is 1-16 lower-case digits without "
              "prefix / leading zeros and hex_to_u64 of it returns x, for boundary, single-bit, valid-cell and random 64-bit values - "
              "bounded stand-in"},
-            {"op": "hex_parse", "budget": 3000, "what": "hexadecimal form (NOT under contract): hex_to_u64 never panics; Ok(v) only for "
-             "1..16 significant hex digits (optional '+') with v their value; empty, non-hex, non-ASCII and 17+-digit strings give Err - "
-             "bounded stand-in over fixed corner strings and random short strings"},
+            {"op": "hex_parse", "budget": 3000, "what": "hexadecimal form (NOT under contract), exactly the parsing sentence of C05: "
+             "hex_to_u64 never panics; the empty string and digit strings wider than 64 bits give Err (no truncated value); a canonical "
+             "string parses to its value; an Ok for a plain digit string is the value of its digits. Whether signs, prefixes, upper case "
+             "or other characters are accepted is not part of the property and is not checked - bounded stand-in over fixed corner "
+             "strings and random short strings"},
             {"op": "cell_to_children", "budget": 3000, "what": "sentence 'every ID returned by any API call is in canonical form', hierarchy "
              "calls: PROVED under C07 / C14 (contracts of cell_to_parent / cell_to_children in unit tree); here only a bounded cross-check "
              "through the public functions (aliases, same-resolution and default-resolution calls included) so that this check also "
@@ -459,10 +462,11 @@ PROPS = {
         ],
         "bounded_ops": [
             {"op": "cell_area", "budget": 1, "what": "through the crate-root export a5::cell_area, resolutions -5..40 in descending, random "
-             "and ascending order: finite, positive, and for 0..29 equal to AUTHALIC_AREA / N(r) to 1e-12 (bounded cross-check of the "
-             "public path; the proofs above are on core::cell_info)"},
+             "and ascending order: returns for every resolution, and for 0..29 finite, positive and equal to AUTHALIC_AREA / N(r) to "
+             "1e-12 (bounded cross-check of the public path; the proofs above are on core::cell_info)"},
             {"op": "get_num_cells", "budget": 1, "what": "through the crate-root export a5::get_num_cells, same orders: 12, 60*4^(r-1) "
-             "(exact to r = 27, 1e-15 relative for 28/29), 0 for negative r, no panic"},
+             "(exact to r = 27, 1e-15 relative for 28/29), no panic for any i32 (the value for resolutions outside 0..29 is not "
+             "part of C04)"},
             {"op": "cell_area_measured", "budget": 2000, "what": "BOUNDED stand-in (sampled; not a proof) for sentence 1: the area of the "
              "reported boundary (32 segments per edge, 256 for resolutions <= 3; spherical excess of a triangle fan on the authalic "
              "sphere, closed-form WGS84 authalic latitude written here) equals sphere / N(r) to 1e-4 relative, for cells at 0 .. 10 "
